@@ -5,6 +5,7 @@
 import Djc.Proofs.Render
 import Djc.Proofs.Calm
 import Djc.Proofs.Inject
+import Djc.Props.C03
 import Djc.Spec.Render
 namespace Djc.Props.C05
 open Djc.Tpl Djc.Render Djc.Proofs.Render
@@ -298,6 +299,46 @@ theorem provider_consumer_end_to_end_django (env : Env) (i : Nat) (key ik : Str)
   rw [h1]
   exact ⟨rfl, rfl, rfl, rfl, rfl, rfl, s', h2⟩
 
+/-- **… and through the isolated copy** (isolated mode or `only`; contexts without for-loop layers): the consumer is
+rendered in `make_isolated_context_copy` of the context — which keeps the provider keys and nothing else a template can
+name — and still gets exactly the provider's keyword arguments; model of the code = reading, registries restored. -/
+theorem provider_consumer_end_to_end_isolated (env : Env) (i : Nat) (key ik : Str) (kwP : List (Str × Expr)) (name : Str)
+    (kwargs : List (Str × Expr)) (only dyn : Bool) (ctx ctx1 : Ctx) (w : World) (e : Djc.SpecRender.SEnv)
+    (s : Djc.SpecRender.SState) (d : CompDef) (toks : List Tok) (st : Nat)
+    (hiso : (only || env.isolated) = true)
+    (hbase : ∀ k, Djc.Proofs.Calm.internal k = false → ctxGet (isolatedCopy ctx1) k = none)
+    (hkey : isIdentifier key = true) (hik : ik = injectPrefix ++ key)
+    (hctx1 : ctx1 = ctx ++ [[(ik, .provRef w.nextId)]])
+    (hr : env.raiseAt = none) (hd : findDef env name = some d) (hdyn : isDynName name = false)
+    (hp : Djc.Proofs.Plain.plainL d.template = true) (ho : Djc.Proofs.Calm.okNamesL d.template = true)
+    (hkwok : kwargs.all (fun kv => Djc.Proofs.Calm.okExpr kv.2) = true)
+    (hsteps : ¬ w.steps + 1 ≥ env.maxSteps) (hgcd : w.gcds < env.maxInst)
+    (hext : isExtracting ctx1 = false)
+    (hpar : ∀ p, ctxGet (isolatedCopy ctx1) compKey ≠ some (.compRef p))
+    (hpc : w.provideCache = []) (hpr : w.provideRefs = [])
+    (hids : provIdsOf (isolatedCopy ctx1) = [w.nextId])
+    (hinj : Djc.Proofs.Inject.injectsFrom (isolatedCopy ctx1) w.nextId d.data)
+    (hinjk : Djc.Proofs.Inject.injectsKey key d.data)
+    (hf1 : alGet (w.nextId + 1) w.ctxCache = none) (hf2 : alGet (w.nextId + 1) w.rendererCache = none)
+    (hf3 : alGet (w.nextId + 1) w.childAttrs = none) (hf4 : w.allRefIds.contains (w.nextId + 1) = false)
+    (hc : Djc.Proofs.Plain.ctxFree (Djc.Proofs.Inject.leafCtxI (isolatedCopy ctx1) (w.nextId + 1) (evalKwargs ctx1 kwargs) (evalKwargs ctx kwP) d) = true)
+    (hok : Djc.Proofs.Plain.pNodes env.maxSteps (i + 1) d.template
+      (Djc.Proofs.Inject.leafCtxI (isolatedCopy ctx1) (w.nextId + 1) (evalKwargs ctx1 kwargs) (evalKwargs ctx kwP) d) (w.steps + 2) = (.ok toks, st))
+    (he : e.vars = ctx) (hsid : s.nextId = w.nextId + 1) (hss : s.steps = w.steps) (hidle : ¬ s.nextId > env.maxInst)
+    (hc2 : Djc.Proofs.Plain.ctxFree (Djc.Proofs.Inject.specVarsI true ctx (w.nextId + 1) (evalKwargs ctx kwargs) (evalKwargs ctx kwP) d) = true) :
+    let r := (renderNode env (i + 8) (.provide key kwP [.comp name kwargs only dyn []]) ctx).run.run w
+    r.1 = .ok (.marker name (w.nextId + 1) :: addRootAttrs [idAttr (w.nextId + 1)] toks) ∧
+      r.2.provideCache = w.provideCache ∧ r.2.provideRefs = w.provideRefs ∧ r.2.allRefIds = w.allRefIds ∧
+      ∃ s', (Djc.SpecRender.sNode env (i + 8) (.provide key kwP [.comp name kwargs only dyn []]) e).run s =
+        .ok (.marker name (w.nextId + 1) :: addRootAttrs [idAttr (w.nextId + 1)] toks, s') := by
+  obtain ⟨h1, s', h2, _⟩ := Djc.Proofs.Inject.provide_consumer_model_eq_spec env i key ik kwP name kwargs only dyn ctx ctx1
+    (isolatedCopy ctx1) w e s d toks st hkey hik hctx1 (by rw [hiso]; rfl) hr hd hdyn hp ho hkwok hsteps hgcd hext hpar hpc hpr
+    hids hinj hinjk hf1 hf2 hf3 hf4 hc hok he hsid hss hidle (by rw [hiso]; exact hc2)
+    (by intro k hk; rw [hiso, hbase k hk]; rfl)
+  simp only
+  rw [h1]
+  exact ⟨rfl, rfl, rfl, rfl, s', h2⟩
+
 /-- **Siblings under one provider both see the data** (the shape of the defect repaired in `/repo` commit 2193c9f: a
 component directly under a page-level `{% provide %}` deleted the provided data when it finished, and its sibling's
 `inject()` raised `KeyError`).  The page `{% provide key … %}{% component a %}{% endcomponent %}{% component b %}
@@ -421,6 +462,43 @@ example :
     (by decide +kernel) (by decide +kernel) (by decide +kernel) (by decide +kernel) (by decide +kernel) hpar rfl rfl
     (by decide +kernel) hinj hinj (by intro k _; exact ⟨rfl, rfl, rfl, rfl⟩)
     (by decide +kernel) (by decide +kernel) (by decide +kernel) (by decide +kernel)).1
+  rw [h]
+  decide +kernel
+def cEnvI : Env := { isolated := true, lib := [cDef] }
+
+/-- the same page in isolated mode: the key survives `make_isolated_context_copy`, the consumer prints the provider's `a` -/
+example :
+    ((renderNode cEnvI 16 (.provide "k".toList [("a".toList, .lit "A".toList)] [.comp "c0".toList [] false false []]) cCtx).run.run {}).1 =
+      .ok [.marker "c0".toList 2, .opn "b".toList [idAttr 2], .text "A".toList, .cls "b".toList] := by
+  have h0 : (ctxGet (isolatedCopy cCtx1) compKey).isNone = true := by decide +kernel
+  have hpar : ∀ p, ctxGet (isolatedCopy cCtx1) compKey ≠ some (.compRef p) := by
+    intro p hp; rw [hp] at h0; cases h0
+  have hfd : findDef cEnvI "c0".toList = some cDef := by
+    simp [findDef, cEnvI, cDef]
+  have hinj1 : (match ctxGet (isolatedCopy cCtx1) (injectPrefix ++ "k".toList) with | some (.provRef p) => p == 1 | _ => false) = true := by
+    decide +kernel
+  have hinj : Djc.Proofs.Inject.injectsFrom (isolatedCopy cCtx1) 1 cDef.data := by
+    simp only [cDef, Djc.Proofs.Inject.injectsFrom, and_true]
+    cases hg : ctxGet (isolatedCopy cCtx1) (injectPrefix ++ "k".toList) with
+    | none => rw [hg] at hinj1; cases hinj1
+    | some v =>
+      rw [hg] at hinj1
+      cases v <;> first | (simp at hinj1; subst hinj1; rfl) | cases hinj1
+  have hbase : ∀ k, Djc.Proofs.Calm.internal k = false → ctxGet (isolatedCopy cCtx1) k = none := by
+    intro k hk
+    obtain ⟨a, b, c, dd⟩ := Djc.Props.C03.usable_name_facts k hk
+    have hall : cCtx1.all (fun l => !hasL forloopKey l) = true := by decide +kernel
+    exact Djc.Props.C03.isolated_copy_hides cCtx1 k a b c dd (by decide +kernel)
+      (fun l hl hf => by
+        have := List.all_eq_true.mp hall l hl
+        rw [hf] at this; cases this)
+  have h := (provider_consumer_end_to_end_isolated cEnvI 8 "k".toList (injectPrefix ++ "k".toList) [("a".toList, .lit "A".toList)]
+    "c0".toList [] false false cCtx cCtx1 {} (.mk cCtx [] none []) { nextId := 2 } cDef
+    [.opn "b".toList [], .text "A".toList, .cls "b".toList] 4
+    rfl hbase (by decide +kernel) rfl rfl rfl hfd (by decide +kernel) (by decide +kernel) (by decide +kernel) (by decide +kernel)
+    (by decide +kernel) (by decide +kernel) (by decide +kernel) hpar rfl rfl (by decide +kernel) hinj
+    (by simp [cDef, Djc.Proofs.Inject.injectsKey]) rfl rfl rfl rfl (by decide +kernel) (by decide +kernel)
+    rfl rfl rfl (by decide +kernel) (by decide +kernel)).1
   rw [h]
   decide +kernel
 end InjectExample
